@@ -1131,7 +1131,24 @@ func (g *Gen) deferStmt() Stmt {
 		return nil
 	}
 	g.feat("defer")
-	switch g.pick(3) {
+	switch g.pick(4) {
+	case 3:
+		// a deferred closure that registers a deferred call of its own, between two other deferred calls of
+		// the same function: each activation has its own list, all run in reverse order of registration
+		g.feat("defer-inside-deferred-closure")
+		k := int64(g.pick(90))
+		pr := func(tag string) *Call {
+			return &Call{F: &Ident{Name: "print"}, Args: []Expr{&StrLit{V: tag}, &IntLit{V: k}}}
+		}
+		inner := &FuncLit{Body: []Stmt{&Defer{Call: pr("inner deferred")}, &ExprStmt{X: pr("deferred body")}}}
+		if g.chance(1, 2) {
+			inner.Body = append([]Stmt{&Defer{Call: pr("inner first")}}, inner.Body...)
+		}
+		cluster := []Stmt{&Defer{Call: pr("first registered")}, &Defer{Call: &Call{F: inner}}}
+		if g.chance(1, 2) {
+			cluster = append(cluster, &Defer{Call: pr("last registered")})
+		}
+		return &ExprStmt{X: &IfExpr{Cond: &BoolLit{V: true}, Then: cluster}}
 	case 0:
 		return &Defer{Call: &Call{F: &Ident{Name: "print"}, Args: []Expr{&StrLit{V: "deferred"}, g.expr(tAny, 1)}}}
 	case 1:
